@@ -159,6 +159,16 @@ func (k c03) judge(c *rt.Ctx, stmt *gen.Stmt, query string, pairs []refstore.Pai
 		default:
 			rec.Inc("rel:gt")
 		}
+		row, rowStore := row, rowStore
+		if stmt.Kind == "delete" && sz != sizes[0] {
+			// DELETE collects its pairs through the vector path whichever entry point is polled, in
+			// chunks of the batch size: the two entry points are compared at the SAME size (a
+			// pair that fails at run time beyond the LIMIT window is evaluated or not depending
+			// on the chunk size - the property's own "whenever batch iteration completes" clause)
+			rowStore = refstore.New(pairs)
+			row = drive.Run(query, rowStore, drive.Mode{Batch: false, Size: sz, Cache: true})
+			rec.Eval(1)
+		}
 		if row.Status() != "ok" {
 			viol("batch-completes-row-fails", m, b, "row iteration: "+row.Status(), bst)
 			return hit
